@@ -106,6 +106,8 @@ def main():
             prelude_check.run_prelude(ctx)
             import prelude_check_e
             prelude_check_e.run_prelude_e(ctx)
+            import prelude_check_p
+            prelude_check_p.run_prelude_p(ctx)
             ctx.flush()
         except ImportError:
             ctx.notes.append('prelude_check not available')
